@@ -1,13 +1,13 @@
-\* thorough: 2 rows + 2 rows, all flags free, zero-length rows, adjacent functions
+\* thorough: 2 rows + 2 rows, zero-length rows, adjacent functions (is_stmt free is covered by _Q)
 CONSTANTS
   MaxRows1 = 2
   MaxRows2 = 2
   Lens = {0, 1, 2}
   Lines = {1, 2}
   Cols = {1}
-  Stmts = {TRUE, FALSE}
+  Stmts = {TRUE}
   Pes = {TRUE, FALSE}
-  Gaps = {0}
+  Gaps = {0, 1}
   Stable = TRUE
   AnyHit = FALSE
   Allowed = {}
